@@ -86,7 +86,7 @@ MUTANTS = [
         defined.sort_by_key(|(_, other)| **other);
         for (other_ty, other) in defined {""",
          new="""        for (other_ty, other) in &self.defined {"""),
-    dict(id="c16-world-include-values-next", prop="C16", expect="R16.1|wac_parser::resolution::AstResolver::<'a>::world_include|", file="crates/wac-parser/src/resolution.rs",
+    dict(id="c16-world-include-values-next", prop="C16", expect="R16.1|wac_parser::resolution::AstResolver::world_include|", file="crates/wac-parser/src/resolution.rs",
          old="""        if let Some(missing) = include
             .with
             .iter()
@@ -96,7 +96,7 @@ MUTANTS = [
     dict(id="c16-plug-hashmap", prop="C16", expect="R16.1|wac_cli::commands::plug::PlugCommand::exec", file="src/commands/plug.rs",
          old="""let mut plugs_by_name = indexmap::IndexMap::<_, Vec<_>>::new();""",
          new="""let mut plugs_by_name = std::collections::HashMap::<_, Vec<_>>::new();"""),
-    dict(id="c16-encode-imports-vec", prop="C16", expect="R16.1|wac_graph::graph::CompositionGraphEncoder::<'a>::encode_imports|", file=G,
+    dict(id="c16-encode-imports-vec", prop="C16", expect="R16.1|wac_graph::graph::CompositionGraphEncoder::encode_imports|", file=G,
          old="""        for (name, node_index) in explicit_imports {
             let canonical = aggregator.canonical_import_name(name);
             let (_, encoded_index) = encoded[canonical];
